@@ -102,7 +102,7 @@ FirstBadAccess(it, i, nested) ==
        IF Nested(it.types[a.root].t, a.path) = nested /\ AccessDiff(it, a) # "ok"
        THEN (IF nested THEN "nested:" ELSE "bad:") \o "access:" \o a.c \o ":" \o AccessDiff(it, a)
        ELSE FirstBadAccess(it, i + 1, nested)
-Verdict(it) == IF FirstBad(it, 1) # "ok" THEN FirstBad(it, 1)
+LVerdict(it) == IF FirstBad(it, 1) # "ok" THEN FirstBad(it, 1)
                ELSE IF FirstBadAccess(it, 1, FALSE) # "ok" THEN FirstBadAccess(it, 1, FALSE)
                ELSE FirstBadAccess(it, 1, TRUE)
 =============================================================================
